@@ -58,6 +58,12 @@ func handle(c *Case) (out map[string]any) {
 		return serCase(c)
 	case "unser":
 		return unserCase(c)
+	case "ftext":
+		return ftextCase(c)
+	case "fcanon":
+		return fcanonCase(c)
+	case "ser.object":
+		return serObject(c)
 	case "json.enc":
 		return jsonEnc(c)
 	case "json.dec":
